@@ -165,6 +165,13 @@ class SymStr:
         raise Escape('SymStr formatted outside the instrumented formatter')
 
     def __hash__(self):
+        # a string without symbolic characters is the same dictionary key as the str it spells; strings with symbolic
+        # characters share a bucket per length and are told apart by == (a solver-decided fork); against concrete str keys
+        # they never match, which is recorded as an assumption of the run (see proxy.Sym.__hash__)
+        if self.is_concrete():
+            return hash(''.join(self.cells))
+        from . import proxy as _px
+        _px._hashed[0] = True
         return hash(('symstr', len(self.cells)))
 
     def __iter__(self):
@@ -505,8 +512,10 @@ class SymStr:
     def _strip_set(self, chars):
         if chars is None:
             return is_space
-        cs = SymStr.of(chars).concrete()
-        return lambda c: (not isinstance(c, Tok)) and any(_truth(cell_eq(c, x)) for x in cs)
+        cs = SymStr.of(chars).cells          # the characters to strip may themselves be symbolic
+        if any(isinstance(x, (Tok, Blob)) for x in cs):
+            raise Escape('strip() with a formatted number among the characters to strip')
+        return lambda c: (not isinstance(c, (Tok, Blob))) and any(_truth(cell_eq(c, x)) for x in cs)
 
     def lstrip(self, chars=None):
         f = self._strip_set(chars)
